@@ -195,7 +195,35 @@ def newvar(case):
         except Exception as ex:
             out2.append(f"{type(ex).__name__}: {ex}")
         SymbolGraph().clear()
-    return {"newvar": out, "refalt": out2}
+    # third template: the same rule, its base condition joins a further variable u with TWO matches per x - two base bindings
+    # share the values of every conclusion variable; the inferred instances (as a set) are the same
+    out3 = []
+    for rev in (False, True):
+        xs = [Y(a, 2 - a, f"x{i + 1}") for i, a in enumerate(case["xa"])]
+        zs = [Y(a, 0, f"y{i + 1}") for i, a in enumerate(case["ya"])]
+        us = [Y(0, 0, "u1"), Y(0, 1, "u2")]
+        x = let(Y, list(reversed(xs)) if rev else xs, name="x")
+        z = let(Y, zs, name="z")
+        u = let(Y, us, name="u")
+        q = an(entity(v := let(N0, None), x.name != "", u.a == 0))
+        try:
+            with q:
+                Add(v, inference(N0)(p=x))
+                with refinement(x.a == 1):
+                    Add(v, inference(N2)(p=x))
+                    with alternative(z.a == x.b):
+                        Add(v, inference(N1)(p=x, r=z))
+            res = []
+            for r in q.evaluate():
+                if r is None:
+                    continue
+                kind = {"N0": "T0", "N2": "T1", "N1": "T2"}[type(r).__name__]
+                res.append([kind, int(r.p.name[1:]), int(r.r.name[1:]) if isinstance(r, N1) else 0])
+            out3.append(sorted(res))
+        except Exception as ex:
+            out3.append(f"{type(ex).__name__}: {ex}")
+        SymbolGraph().clear()
+    return {"newvar": out, "refalt": out2, "refalt_dup": out3}
 
 
 def handle(case):
@@ -245,7 +273,13 @@ def handle(case):
                 emit(case["prog"])
         res = {}
         nones = 0
-        for r in q.evaluate():
+        judged = q.evaluate()
+        if case.get("held"):
+            # two iterables obtained back to back; the one obtained FIRST is consumed first, the second one is judged:
+            # obtaining an iterable starts nothing, every evaluation begins with a clean per-evaluation state
+            first, judged = judged, q.evaluate()
+            list(first)
+        for r in judged:
             if r is None:          # a true output without a visible conclusion: nothing was inferred for it
                 nones += 1
                 continue
